@@ -72,8 +72,18 @@ def build_prog(case):
             st.append({"v": "bid", "ctl": bid["ctl"], "who": [bid["who"]], "at": bid["newp"], "ctx": None})
         else:
             st.append({"v": "bid", "ctl": "abort", "who": [bid["who"]], "ctx": None})
-        st.append({"v": "repeat", "n": max(1, n1 - k)})
-        frames.append(P.frame("chg", st))
+        if bid.get("then_start"):
+            # some ticks after the abort the same tasker is bid to start: a tasker that has aborted never runs again,
+            # whatever state it was in when the abort reached it (running, or stopped / never started)
+            d = bid["then_start"]
+            st.append({"v": "repeat", "n": d})
+            frames.append(P.frame("chg", st))
+            st = [P.rec("drv.bid2", "enter"), {"v": "bid", "ctl": "start", "who": [bid["who"]], "ctx": None},
+                  {"v": "repeat", "n": max(1, n1 - k - d)}]
+            frames.append(P.frame("chg2", st))
+        else:
+            st.append({"v": "repeat", "n": max(1, n1 - k)})
+            frames.append(P.frame("chg", st))
     else:
         frames.append(P.frame("w1", [{"v": "repeat", "n": n1}]))
     frames.append(P.frame("fin", [P.rec("drv.fin", "enter"), {"v": "bid", "ctl": "stop", "who": ["all"], "ctx": None}]))
@@ -144,13 +154,20 @@ def check_case(ctx, case):
                 bid_seq = res.trace.index(e)
                 ctx.hit("bids_observed")
                 break
+        if bid.get("then_start") and any(e["tag"] == "drv.bid2" for e in res.trace):
+            ctx.hit("start_bid_after_abort")
     ntask_ok = 0
     for t in case["taskers"]:
         name = t["name"]
         period = Fraction(t["period"])
         rs = runs[name]
-        # (ii) nothing after ABORTED
+        # (ii) nothing after ABORTED; an abort control always ends in ABORTED
         for i, s in enumerate(rs):
+            if s.get("control") == "abort":
+                ctx.hit("abort_controls_delivered")
+                ctx.check(s.get("status") == "aborted", "abort-delivered-but-not-aborted",
+                          "%s received the abort control and returned status %s" % (name, s.get("status")),
+                          lambda: wit({"runs": rs[max(0, i - 2):i + 3]}))
             if s.get("status") == "aborted":
                 ctx.hit("aborted_runs")
                 ctx.check(i == len(rs) - 1, "ran-after-aborted",
@@ -243,7 +260,13 @@ def run(ctx):
                    "newp": rng.choice(periods_for(Pstr)), "tick": rng.randint(1, nt - 3)}
         elif r < 0.55:
             bid = {"kind": "abort", "who": "t%d" % rng.randrange(n), "tick": rng.randint(1, nt - 3)}
+            if rng.random() < 0.6 and nt - bid["tick"] > 6:
+                bid["then_start"] = rng.randint(1, 4)
         c = make_case(rng, Pstr, n, nt, bid=bid)
+        if bid and bid.get("then_start") and rng.random() < 0.5:
+            for t in c["taskers"]:
+                if t["name"] == bid["who"]:
+                    t["sched"] = "inactive"        # the abort reaches a tasker that was never started
         if bid and bid["kind"] == "period":
             for t in c["taskers"]:
                 if t["name"] == bid["who"]:
@@ -256,4 +279,6 @@ def run(ctx):
     ctx.floor("non_multiple_periods", 1)
     ctx.floor("bids_observed", 1)
     ctx.floor("aborted_runs", 1)
+    ctx.floor("abort_controls_delivered", 5)
+    ctx.floor("start_bid_after_abort", 5)
     ctx.floor("nonzero_start_time_cases", 20)
